@@ -20,8 +20,10 @@ NOT_APPLICABLE["C12"] = ("The quorum-waiting logic is the body of a select! bran
                          "locals across await points; Kani encodes such state machines so that CBMC loses the constant shapes of everything stored in them. Two "
                          "encodings of the real run loop were measured (one batch, three acknowledgement handles, symbolic stakes; kani/harness/quorum_waiter_h.rs, "
                          "shims/futures): the coroutine polled as is, and the loop lowered to a plain function with a synchronous select (the lowering that "
-                         "decides BatchMaker::run for C11) while the per-handler `waiter` futures stay boxed coroutines inside FuturesUnordered; neither finished "
-                         "symbolic execution in 1000 s. Copying the branch body into a harness would no longer be the real code, so nothing is claimed.")
+                         "decides BatchMaker::run for C11), first with the per-handler `waiter` futures as boxed coroutines inside FuturesUnordered, then with `waiter` "
+                         "lowered to a plain struct future as well; none finished symbolic execution in 900..1000 s (a debugger backtrace of the last attempt shows "
+                         "CBMC's expression simplifier working on byte extracts over deeply nested union types, i.e. the coroutine/select types the loop still "
+                         "mentions). Copying the branch body into a harness would no longer be the real code, so nothing is claimed.")
 NOT_APPLICABLE["C14"] = ("Connection::run / keep_alive are select!-based coroutines over TcpStream/Framed (same obstacle as C12, measured on the smaller "
                          "QuorumWaiter run loop: no result in 900..1000 s, as a coroutine and lowered); a scripted-I/O encoding of them was therefore not attempted beyond the design.")
 PENDING = "check not built yet in this revision (solver-based harness planned, see DESIGN.md section 4); not claimed until it runs"
